@@ -408,6 +408,9 @@ func (e *Engine) nativeReplay(replayPath string, ent *EntryCfg, v *Violation) (b
 		if strings.Contains(s, "[build failed]") || strings.Contains(s, "cannot find") {
 			break
 		}
+		if !strings.Contains(s, "VERIF-REPLAY:") && i == attempts-1 && attempts < 3 {
+			attempts++ // the native run did not get anywhere (load, port in use): once more
+		}
 	}
 	return false, string(out)
 }
